@@ -113,6 +113,7 @@ func TestVerifC28Rekey(t *testing.T) {
 	c.Require("rejected_sender_key_after_rekey", int64(c.N(15, 250)))
 	c.Require("rejected_broken_signature", int64(c.N(25, 400)))
 	c.Require("rekeys_applied", int64(c.N(120, 2000)))
+	c.Require("members_with_zero_fee", int64(c.N(50, 800)))
 	c.Require("rekey_back_to_sender", 10)
 	c.Require("rekey_to_msig", 10)
 	c.Require("rekey_to_lsig", 10)
@@ -284,6 +285,14 @@ func c28RekeyCase(c *kit.Ctx, t testing.TB, ci int, cv protocol.ConsensusVersion
 			trace = append(trace, c28Step{Sender: s.name, Claimed: claimed.name, Current: byAddr[current].name, RekeyTo: rekeyName, Broken: plans[i].broken})
 		}
 		if gsize > 1 {
+			if r.Bool() {
+				// pooled fees: one member pays nothing, another pays for it (the authorizer rule must not depend on the fee)
+				i := r.Intn(gsize)
+				j := (i + 1 + r.Intn(gsize-1)) % gsize
+				txns[j].Fee.Raw += txns[i].Fee.Raw
+				txns[i].Fee.Raw = 0
+				c.Count("members_with_zero_fee", 1)
+			}
 			cevSetGroup(txns)
 		}
 		// expectation per member, replaying the model through the group
